@@ -13,6 +13,7 @@ pub mod net;
 pub mod process;
 pub mod signal;
 pub mod sim;
+pub mod sync;
 
 pub mod runtime {
     pub use real_tokio::runtime::*;
